@@ -23,6 +23,7 @@ EXPLANATION = (
     "receives the entity as context. R5: in the admonition pre-processor no list index is reused after "
     "an element at that index may have been deleted. Placement for every layout, and Markdown's own "
     "rendering, are not decided."
+    ' R6: values computed once per declaration statement (attribute lists, dimension) are copied per variable, not shared. R7: a metadata continuation line needs an open key.'
 )
 ASSUMPTIONS = ["doc markers are configurable strings of any length (settings schema: str)"]
 
